@@ -547,6 +547,9 @@ def main():
     if any(kc[0] == 'mpsobj' for kc in payload['cases']):
         import c03_mpsobj_impl              # whole-object fingerprints around every public MPS call (stream mps-object)
         fs['mpsobj'] = c03_mpsobj_impl.run_mps_object
+    if any(kc[0] == 'mpoobj' for kc in payload['cases']):
+        import c03_mpoobj_impl              # whole-object fingerprints of sites / MPOs / graphs / models (stream mpo-object)
+        fs['mpoobj'] = c03_mpoobj_impl.run_mpo_object
     res = base.isolated_all(lambda kc: fs[kc[0]](kc[1]), payload['cases'], batch=20)
     info = {'have_cython': bool(optimization.have_cython_functions),
             'npc_file': os.path.realpath(npc.__file__)}
